@@ -33,14 +33,23 @@ def outputs(thorough):
             for ncpu in (1, 2):
                 for hyd in (["rvp", "mhd", "oddnames", "rvp-rev", "mhd-rev"] if (thorough or ndim == 3) else ["rvp", "oddnames", "rvp-rev"]):
                     outs[f"{ndim}d-t{ti}-{ncpu}cpu-{hyd}"] = (ndim, ti, ncpu, hyd)
+    # levelmax far above the finest level present, info file written as RAMSES prints it (15 significant digits): the top of the
+    # Hilbert key range is not exactly representable there
+    outs["3d-levelmax21-2cpu-rvp"] = (3, 21, 2, "rvp")
+    outs["2d-levelmax24-2cpu-rvp"] = (2, 24, 2, "rvp")
     return outs
 
 
 def build(label):
     ndim, ti, ncpu, hyd = outputs(True)[label]
-    tree = M1.Tree(ndim, 2, [(1, (1,) * ndim)]) if ti == 0 else M1.Tree(ndim, 3, [(1, (0,) * ndim), (2, (1,) * ndim)])
+    if ti > 3:
+        tree = M1.Tree(ndim, ti, [(1, (0,) * ndim), (1, (1,) * ndim), (2, (1,) * ndim)])
+    else:
+        tree = M1.Tree(ndim, 2, [(1, (1,) * ndim)]) if ti == 0 else M1.Tree(ndim, 3, [(1, (0,) * ndim), (2, (1,) * ndim)])
     base = {k: v[0] for k, v in C01.SPACE.items()}
     cfg = dict(base, ncpu=ncpu, ghosts="all", grav=True, rt="rt4", units=[2.0, 3.0, 5.0, 2.0], bnd="x2" if ncpu == 2 else "none")
+    if ti > 3:
+        cfg["info_format"] = "fortran"
     if hyd == "oddnames":
         cfg["hydro"] = "rvp"
     else:
